@@ -1,6 +1,9 @@
 /- Helper lemmas for C11: normal forms of the per-class damage, ordering of the Miner variants, Gassner cycles under
    Miner-Haibach and Miner-elementary. -/
 import Proofs.Lemmas.Miner
+import Proofs.Lemmas.Woehler
+
+set_option linter.unusedSimpArgs false
 
 namespace PylifeVerif.Miner
 open PylifeVerif
@@ -219,5 +222,56 @@ theorem validColl_scaleAmps {l : Coll ℝ} (hl : ValidColl l) {t : ℝ} (ht : 0 
 theorem loaded_scaleAmps {l : Coll ℝ} (hl : Loaded l) {t : ℝ} (ht : 0 < t) : Loaded (scaleAmps t l) := by
   obtain ⟨p, hp, hp2, hp1⟩ := hl
   exact ⟨(t * p.1, p.2), List.mem_map.mpr ⟨p, hp, rfl⟩, hp2, mul_pos ht hp1⟩
+
+/-! ### native curves (failure probability, scatter): everything happens on the 50 % curve -/
+
+@[simp] theorem at50_k1 (ppf : ℝ → ℝ) (w : Woehler.Curve ℝ) : (at50 ppf w).k1 = w.k1 := rfl
+theorem at50_SD (ppf : ℝ → ℝ) (w : Woehler.Curve ℝ) : (at50 ppf w).SD = (Woehler.transform ppf w 0.5).SD := rfl
+theorem at50_ND (ppf : ℝ → ℝ) (w : Woehler.Curve ℝ) : (at50 ppf w).ND = (Woehler.transform ppf w 0.5).ND := rfl
+
+/-- the 50 % curve of a curve with positive parameters has positive `SD` and `ND` -/
+theorem validCurve_at50 (ppf : ℝ → ℝ) (w : Woehler.Curve ℝ) (hTS : 0 < w.TS) (hTN : 0 < w.TN)
+    (hSD : 0 < w.SD) (hND : 0 < w.ND) : ValidCurve (at50 ppf w) :=
+  ⟨Woehler.transform_SD_pos ppf w 0.5 hTS hSD, Woehler.transform_ND_pos ppf w 0.5 hTS hTN hSD hND⟩
+
+/-- the Miner modifiers act on `k_2` only and the transformation does not read `k_2` -/
+theorem at50_minerOriginal (ppf : ℝ → ℝ) (w : Woehler.Curve ℝ) :
+    at50 ppf (Woehler.minerOriginal w) = minerOriginal (at50 ppf w) := by
+  simp [at50, ofWoehler, Woehler.transform, Woehler.minerOriginal, minerOriginal]
+
+theorem at50_minerElementary (ppf : ℝ → ℝ) (w : Woehler.Curve ℝ) :
+    at50 ppf (Woehler.minerElementary w) = minerElementary (at50 ppf w) := by
+  simp [at50, ofWoehler, Woehler.transform, Woehler.minerElementary, minerElementary]
+
+theorem at50_minerHaibach (ppf : ℝ → ℝ) (w : Woehler.Curve ℝ) :
+    at50 ppf (Woehler.minerHaibach w) = minerHaibach (at50 ppf w) := by
+  simp [at50, ofWoehler, Woehler.transform, Woehler.minerHaibach, minerHaibach]
+
+theorem gassnerCyclesElementaryW_eq (ppf : ℝ → ℝ) (w : Woehler.Curve ℝ) (l : Coll ℝ) :
+    gassnerCyclesElementaryW ppf w l = gassnerCyclesElementary (at50 ppf w) l := rfl
+
+theorem gassnerCyclesHaibachW_eq (ppf : ℝ → ℝ) (w : Woehler.Curve ℝ) (l : Coll ℝ) :
+    gassnerCyclesHaibachW ppf w l = gassnerCyclesHaibach (at50 ppf w) l := rfl
+
+/-- the transformation is linear in `ND` -/
+theorem transform_gassnerCurveW_ND (ppf : ℝ → ℝ) (w : Woehler.Curve ℝ) (l : Coll ℝ) (p : ℝ) :
+    (Woehler.transform ppf (gassnerCurveW w l) p).ND =
+      (Woehler.transform ppf w p).ND * lifetimeMultipleElementaryW w l := by
+  unfold Woehler.transform gassnerCurveW
+  dsimp only
+  split_ifs <;> ring
+
+theorem transform_gassnerCurveW_SD (ppf : ℝ → ℝ) (w : Woehler.Curve ℝ) (l : Coll ℝ) (p : ℝ) :
+    (Woehler.transform ppf (gassnerCurveW w l) p).SD = (Woehler.transform ppf w p).SD := rfl
+
+/-- the Gassner-shifted native curve has the 50 % curve shifted by the same factor, continued with `k_1` -/
+theorem at50_gassnerCurveW (ppf : ℝ → ℝ) (w : Woehler.Curve ℝ) (l : Coll ℝ) :
+    at50 ppf (gassnerCurveW w l) =
+      { k1 := w.k1, k2 := some w.k1, SD := (at50 ppf w).SD,
+        ND := (at50 ppf w).ND * lifetimeMultipleElementaryW w l } := by
+  have h := transform_gassnerCurveW_ND ppf w l 0.5
+  simp only [at50, ofWoehler] at h ⊢
+  rw [h]
+  simp [Woehler.transform, gassnerCurveW]
 
 end PylifeVerif.Miner
